@@ -95,13 +95,15 @@ Definition f_addSimplex (f : filt) (fs : list name) (id : option name) (attr : o
   | (r', Raise e) => (with_rep f r', Raise e)
   | (r', Ok nid) =>
       let ind := f_index f in
-      let f1 := f_setIndex (with_rep f r') ind in
-      let cur := match zassoc ind (f_includes f1) with Some l => l | None => [] end in
-      let mo := match zassoc ind (f_maxOrders f1) with Some m => m | None => (-1)%Z end in
-      (mkFilt r' ind (f_appears f1 ++ [(nid, ind)])
-              (zassoc_set ind (cur ++ [nid]) (f_includes f1))
-              (if (mo <? maxOrder r')%Z then zassoc_set ind (maxOrder r') (f_maxOrders f1)
-               else f_maxOrders f1), Ok nid)
+      let app' := f_appears f ++ [(nid, ind)] in
+      match zassoc ind (f_includes f), zassoc ind (f_maxOrders f) with
+      | Some cur, Some mo =>
+          (mkFilt r' ind app'
+                  (zassoc_set ind (cur ++ [nid]) (f_includes f))
+                  (if (mo <? maxOrder r')%Z then zassoc_set ind (maxOrder r') (f_maxOrders f)
+                   else f_maxOrders f), Ok nid)
+      | _, _ => (mkFilt r' ind app' (f_includes f) (f_maxOrders f), Raise KeyError)
+      end
   end.
 
 (* Filtration.forceDeleteSimplex *)
@@ -115,7 +117,7 @@ Definition f_forceDelete (f : filt) (s : name) : filt * res unit :=
           let app' := assoc_del s (f_appears f) in
           let cur := match zassoc i (f_includes f) with Some l => l | None => [] end in
           let cur' := filter (fun x => negb (name_eqb s x)) cur in
-          if length cur' =? 0 then
+          if (length cur' =? 0) && negb (Z.eqb i (f_index f)) then
             (mkFilt r' (f_index f) app' (zassoc_del i (f_includes f)) (zassoc_del i (f_maxOrders f)), Ok tt)
           else
             (mkFilt r' (f_index f) app' (zassoc_set i cur' (f_includes f)) (f_maxOrders f), Ok tt)
